@@ -17,6 +17,11 @@ C10 driver. Line kinds
    evs : SAc<i>:<k> SAr<i> EVc<i> EVr<i> NMc<i> NMr<i> STc<i>:<code> STr<i> CHc<i> CHr<i> IRc<i> IRr<i>:<0|1>
          ENc<i> ENr<i> OE<p>:<sn> OT PANIC HANG
    snap: `<endTime> <children> <name> <status> <uniq i_j,…|-> <shared j=v,…|-> <events a.b.c|-> <immutable 0|1>`
+`alias <gen> <6 limits> | <op> | <op> … => <one 0|1 per op, one token> ## <span idx> <immutable 0|1> <snapshot at OnEnd> ; …`
+   argument memory shared between calls (Alias.lean): `mk <kvs> <spare>` caller buffer with spare capacity · `wr <b> <i> <kv>`
+   caller overwrites a cell · `sp <hex name> <bufs a.b|-> <links sc@b+sc@-|->` Start · `sa <s> <b>` · `ev <s> <hex> <bufs>` ·
+   `re <s> <hex msg|-> <bufs>` · `ln <s> <sc> <b|->` · `st <s> <code> <hex>` · `nm <s> <hex>` · `end <s>`;
+   per-op flag: every snapshot exported so far, re-read now, still equals what OnEnd saw
 `attrrace <gen> <n attrs> <dup keys> <concurrent Attributes() 0|1> => race | norace | race:other | err`
    known finding F36, observed in a race-instrumented child process (Spec.F36_applies / Spec.attrRaceVerdict)
 -/
@@ -25,6 +30,7 @@ import Otel.C04.Spec
 import Otel.C10.Sched
 import Otel.C10.Spec
 import Otel.C10.Wire
+import Otel.C10.Alias
 open Otel Otel.Wire Otel.C04 Otel.C10 Otel.C10.Drv
 
 def dropS (s : String) (n : Nat) : String := (s.drop n).toString
@@ -246,11 +252,125 @@ def histLine (perm nShared : String) (evToks obs : List String) : Option Verdict
          nontrivial := nE ≥ 1, branches := if tags.isEmpty then "-" else ",".intercalate tags,
          model := if bad.isEmpty then "-" else s!"violated=[{",".intercalate bad}]" }
 
+/-! ### leg `alias` -/
+def parseIdxList (s : String) : Option (List Nat) := if s == "-" then some [] else (s.splitOn ".").mapM (·.toNat?)
+
+def parseOptIdx (s : String) : Option (Option Nat) := if s == "-" then some none else s.toNat?.map some
+
+def parseALink (l : String) : Option (SC × Option Nat) :=
+  match l.splitOn "@" with
+  | [sc, b] => do pure (← parseSC sc, ← parseOptIdx b)
+  | _ => none
+
+def parseAOp : List String → Option Alias.AOp
+  | ["mk", kvs, sp] => do pure (.mk (← parseKVs kvs) (← sp.toNat?))
+  | ["wr", b, i, kv] => do pure (.wr (← b.toNat?) (← i.toNat?) (← parseKV kv))
+  | ["sp", n, bufs, links] => do
+    let ls ← if links == "-" then some [] else (links.splitOn "+").mapM parseALink
+    pure (.start (← parseHex n) (← parseIdxList bufs) ls)
+  | ["sa", s, b] => do pure (.setAttrs (← s.toNat?) (← b.toNat?))
+  | ["ev", s, n, bufs] => do pure (.addEvent (← s.toNat?) (← parseHex n) (← parseIdxList bufs))
+  | ["re", s, m, bufs] => do
+    let err ← if m == "-" then some none else (parseHex m).map fun x => some (errorsNewType, x)
+    pure (.recordError (← s.toNat?) err (← parseIdxList bufs))
+  | ["ln", s, sc, b] => do pure (.addLink (← s.toNat?) (← parseSC sc) (← parseOptIdx b))
+  | ["st", s, c, d] => do pure (.plain (← s.toNat?) (.setStatus (← c.toNat?) (← parseHex d)))
+  | ["nm", s, n] => do pure (.plain (← s.toNat?) (.setName (← parseHex n)))
+  | ["end", s] => s.toNat?.map .end_
+  | _ => none
+
+structure AExp where
+  idx : Nat
+  imm : Bool
+  snap : Snap
+deriving DecidableEq
+
+def parseAExp : List String → Option AExp
+  | i :: m :: rest => do pure { idx := ← i.toNat?, imm := m == "1", snap := ← parseSnap rest }
+  | _ => none
+
+def renderAExp (e : AExp) : String := s!"{e.idx} {if e.imm then 1 else 0} {renderSnap e.snap}"
+
+/-- the heap model run op by op: after every op every exported snapshot is read through the current heap and compared
+with what it showed when it was exported -/
+def aliasModel (lim : Limits) (ops : List Alias.AOp) : List Bool × List AExp :=
+  let r := ops.foldl (fun (acc : Alias.World × List Snap × List Bool) op =>
+    let w := Alias.step Alias.applyEvent lim acc.1 op
+    let atE := acc.2.1 ++ (w.exported.drop acc.2.1.length).map fun e => Alias.snapView w.heap e.2
+    let same := (w.exported.zip atE).all fun (e, sn) => Alias.snapView w.heap e.2 == sn
+    (w, atE, acc.2.2 ++ [same])) (({} : Alias.World), [], [])
+  (r.2.2, (r.1.exported.zip r.2.1).map fun (e, sn) =>
+    { idx := e.1, imm := Alias.snapView r.1.heap e.2 == sn, snap := sn })
+
+def stripLinkAttrs (s : Snap) : Snap := { s with links := s.links.map fun l => { l with attrs := [] } }
+
+def aliasLine (ls : List String) (rest obs : List String) : Option Verdict := do
+  let [a, b, c, d, e, f] := ls | none
+  let lim : Limits := ⟨← a.toInt?, ← b.toInt?, ← c.toInt?, ← d.toInt?, ← e.toInt?, ← f.toInt?⟩
+  let ops ← ((splitOnTok "|" rest).filter (fun g => !g.isEmpty)).mapM parseAOp
+  let [[fl], o2] := splitOnTok "##" obs | none
+  let flags := if fl == "-" then [] else fl.toList.map (· == '1')
+  let exps ← if o2 == ["-"] then some [] else (splitOnTok ";" o2).mapM parseAExp
+  let (mflags, mexps) := aliasModel lim ops
+  let agree := mflags == flags && mexps == exps
+  -- Spec oracle: value semantics (arguments copied at the call), on the observations alone
+  let v := Alias.vrun lim {} ops
+  let bad : List String := []
+  let bad := if flags.length == ops.length then bad else "obs-count" :: bad
+  let bad := if exps.map (·.idx) == v.exported.map (·.1) then bad else "exported-spans" :: bad
+  let valueOK := exps.map (·.snap) == v.exported.map (·.2)
+  let bad := if valueOK then bad else "arguments_copied_at_call" :: bad
+  let bad := if exps.all (fun x => C04.Spec.exportWellFormed lim x.snap) then bad else "export-well-formed" :: bad
+  let bad := if flags.all id && exps.all (·.imm) then bad else "snapshot_immutable" :: bad
+  let linkKnown := Alias.linkWriteAfterUse ops && exps.map (·.idx) == v.exported.map (·.1) &&
+    exps.map (stripLinkAttrs ·.snap) == v.exported.map (stripLinkAttrs ·.2) && flags.length == ops.length
+  let isExp (i : Nat) : Bool := v.exported.any (·.1 == i)
+  -- non-trivial: after some span was exported, a later op passes or overwrites a caller buffer
+  let firstEnd := ops.findIdx? fun | .end_ _ => true | _ => false
+  let later := match firstEnd with | some j => ops.drop (j + 1) | none => []
+  let usesBuf : Alias.AOp → Bool
+    | .wr _ _ _ => true
+    | .setAttrs _ _ => true
+    | .addEvent _ _ bs => !bs.isEmpty
+    | .recordError _ (some _) _ => true
+    | .addLink _ _ (some _) => true
+    | .start _ bs ls => !bs.isEmpty || ls.any (·.2.isSome)
+    | _ => false
+  let evBufs : List (Nat × Nat) := ops.flatMap fun
+    | .addEvent s _ bs => bs.map fun b => (s, b)
+    | .recordError s (some _) bs => bs.map fun b => (s, b)
+    | _ => []
+  let sharedAcross := evBufs.any fun (s, b) => evBufs.any fun (s', b') => b' == b && s' != s
+  let spareRE := ops.any fun
+    | .recordError _ (some _) (b :: _) => ops.zipIdx.any fun (o, j) =>
+        (match o with | .mk _ sp => sp ≥ 2 | _ => false) &&
+        ((ops.take j).filter fun | .mk _ _ => true | _ => false).length == b
+    | _ => false
+  let tags := (if !v.exported.isEmpty then ["exported"] else []) ++
+    (if later.any (fun | .wr _ _ _ => true | _ => false) then ["write-after-export"] else []) ++
+    (if later.any (fun | .recordError _ (some _) (_ :: _) => true | _ => false) then ["recorderror-after-export"] else []) ++
+    (if sharedAcross then ["buffer-shared-across-spans"] else []) ++
+    (if spareRE then ["recorderror-spare-capacity"] else []) ++
+    (if ops.any (fun | .addEvent _ _ (_ :: _ :: _) => true | .recordError _ _ (_ :: _ :: _) => true | _ => false) then ["two-attribute-options"] else []) ++
+    (if ops.any (fun | .addLink _ _ (some _) => true | .start _ _ ls => ls.any (·.2.isSome) | _ => false) then ["link-buffer"] else []) ++
+    (if ops.any (fun | .start _ (_ :: _) _ => true | _ => false) then ["start-attributes"] else []) ++
+    (if Alias.linkWriteAfterUse ops then ["link-buffer-written"] else []) ++
+    (if (ops.filter fun | .start _ _ _ => true | _ => false).length ≥ 2 then ["several-spans"] else []) ++
+    (if ops.any (fun | .end_ i => !isExp i | _ => false) then ["end-unknown-span"] else [])
+  pure { agree := agree,
+         spec := if bad.isEmpty then "ok" else if linkKnown then "KNOWN:F44" else "FAIL",
+         nontrivial := later.any usesBuf,
+         branches := if tags.isEmpty then "-" else ",".intercalate tags,
+         model := if agree && bad.isEmpty then "="
+                  else s!"violated=[{",".intercalate bad}] model: " ++ String.ofList (mflags.map fun b => if b then '1' else '0') ++
+                       " ## " ++ " ; ".intercalate (mexps.map renderAExp) }
+
 def stepLine (_ : Unit) (toks : List String) : Unit × Option Verdict :=
   let (inp, obs) := splitObs toks
   match inp with
   | "sched" :: _ :: task :: pg :: a :: b :: c :: d :: e :: f :: name0 :: rest =>
     ((), schedLine task pg [a, b, c, d, e, f] name0 rest obs)
+  | "alias" :: _ :: a :: b :: c :: d :: e :: f :: rest => ((), aliasLine [a, b, c, d, e, f] rest obs)
   | "hist" :: _ :: perm :: nShared :: "|" :: evToks => ((), histLine perm nShared evToks obs)
   | ["attrrace", _, n, dup, conc] =>
     match n.toNat?, dup.toNat?, obs with
